@@ -336,6 +336,30 @@ def facts():
     m_ = re.search(r"const\s+MAX_NESTING\s*:\s*usize\s*=\s*([0-9_]+)", par_src)
     f["parser_limits"] = ["MAX_NESTING=%s" % (m_.group(1) if m_ else "?"), "functions=%d" % len(names), "max_rank=%d" % (max(rank.values()) if rank else 0)]
     f["_parser_graph"] = (names, guarded, sorted(edges), rank)
+    # loops of the parser that wrap what they have built so far into a new node (`x = Ctor(.. x ..)`): each
+    # iteration adds a level to the tree without recursing, so each must account for it with self.link()
+    wrapping, unlinked = [], []
+    for n, b, _ in functions(par_src):
+        for m in re.finditer(r"\b(loop\s*|while\b[^{;]*)\{", b):
+            depth, j = 1, m.end()
+            while j < len(b) and depth:
+                depth += {"{": 1, "}": -1}.get(b[j], 0)
+                j += 1
+            block = b[m.end():j]
+            wraps = False
+            for var in set(re.findall(r"(?:Rc|Box)::new\(\s*(\w+)\s*\)", block)):
+                if re.search(r"(?<![\w.])%s\s*=[^=>]" % re.escape(var), block) and not re.search(r"\blet\s+(?:mut\s+)?%s\b" % re.escape(var), block):
+                    wraps = True
+                    break
+            if wraps:
+                key = "%s@%s" % (n, re.sub(r"\s+", " ", m.group(0))[:40])
+                # an outer loop that merely contains an instrumented inner loop is described by the inner one
+                inner_first = block.find("self.link()")
+                wrapping.append(key)
+                if inner_first < 0:
+                    unlinked.append(key)
+    f["parser_wrapping_loops"] = ["count=%d" % len(wrapping)]
+    f["parser_wrapping_loops_without_link"] = sorted(set(unlinked))
     # ---- C01: the Pratt table -----------------------------------------------------------
     par = dict(inter).get("src/parser.rs", "")
     body = next((b for n, b, _ in functions(par) if n == "current_binary_op"), "")
@@ -392,7 +416,7 @@ GROUPS = {
     "C13": ["constants"],
     "C17": ["ffi_exports", "ffi_unchecked_pointer_params", "ffi_pointer_param_count"],
     "C03": ["type_syntax_uses"],
-    "C05": ["parser_guarded", "parser_unguarded_cycles", "parser_limits"],
+    "C05": ["parser_guarded", "parser_unguarded_cycles", "parser_limits", "parser_wrapping_loops", "parser_wrapping_loops_without_link"],
     "C19": ["prologue_eval", "prologue_prepare", "prologue_resume", "capi_entry_calls"],
 }
 
